@@ -69,6 +69,64 @@ int main(int argc, char **argv) {
     }
     return 0;
   }
+  if (mode == "gen" && std::string(argv[2]) == "long") {
+    // long rows: 33..200 insertions in one segment, then probes (getCost NOT followed by the insertion, repeated
+    // identically) whose descent passes dozens to hundreds of bounds, from the far left and the far right
+    SplitMix g(strtoull(argv[3], nullptr, 10)); long long count = atoll(argv[4]);
+    static const int sizes[] = {33, 64, 65, 128, 129, 31, 32, 34, 63, 127, 130, 200};
+    for (long long it = 0; it < count; ++it) {
+      int n = g.coin(60) ? sizes[g.uni(0, 11)] : (int)g.uni(50, 200);
+      long long scale = g.coin(70) ? 1 : (1LL << g.uni(2, 10));
+      int layout = (int)g.uni(0, 3);  // 0 sorted, one cluster per cell; 1 all targets in a small window; 2 random; 3 sorted with ties
+      std::vector<long long> cw(n); long long sumw = 0;
+      for (int i = 0; i < n; ++i) { cw[i] = g.uni(1, 3) * scale; sumw += cw[i]; }
+      long long P = g.coin(50) ? 2 * sumw + g.uni(1, 10) * scale        // heavier than everything: passes every bound by slope
+                               : g.uni(1, 2 * sumw);                   // passes about P / (2 * mean width) bounds
+      long long gap = g.uni(0, 3) * scale;
+      long long len = sumw + (long long)n * gap + P + g.uni(0, 20) * scale;
+      long long b = g.uni(-4, 4) * scale, e = b + len;
+      std::vector<long long> w, t; std::vector<int> k;
+      auto probe = [&](long long rem) {
+        long long pw = std::min(P, rem); if (pw <= 0) return;
+        long long far_l = g.coin(50) ? b - g.uni(0, 100) * scale : -(1LL << 22) + g.uni(0, 5);
+        long long far_r = g.coin(50) ? e + g.uni(0, 100) * scale : (1LL << 22) - g.uni(0, 5);
+        int rep = (int)g.uni(2, 3);
+        for (int r = 0; r < rep; ++r) { w.push_back(pw); t.push_back(far_l); k.push_back(1); }
+        w.push_back(pw); t.push_back(far_r); k.push_back(1);
+        w.push_back(rem); t.push_back(far_l); k.push_back(1);           // as wide as what is left: passes bounds by legality
+        w.push_back(g.uni(1, pw)); t.push_back(g.uni(b, e)); k.push_back(1);
+        w.push_back(pw); t.push_back(far_l); k.push_back(1);           // same prediction again
+      };
+      long long used = 0, pos = b;
+      for (int i = 0; i < n; ++i) {
+        long long ti;
+        if (layout == 0) { ti = pos + gap; pos = ti + cw[i]; }
+        else if (layout == 1) ti = b + len / 2 + g.uni(-3, 3) * scale;
+        else if (layout == 2) ti = g.uni(b, e);
+        else { ti = pos + (g.coin(50) ? 0 : gap); pos = ti + (g.coin(30) ? 0 : cw[i]); }
+        if (g.coin(10)) { w.push_back(cw[i]); t.push_back(ti); k.push_back(1); }
+        w.push_back(cw[i]); t.push_back(ti); k.push_back(0); used += cw[i];
+        int done = i + 1;
+        if ((done == 33 || done == 65 || done == 129) && done < n && g.coin(50)) probe(len - used);
+      }
+      probe(len - used);
+      // a different, small cell is inserted after the probes; then the prediction is asked again
+      long long rem = len - used;
+      if (rem > 0 && g.coin(70)) {
+        long long sw = g.uni(1, std::min(rem, 3 * scale)); long long st = g.coin(50) ? e : g.uni(b, e);
+        w.push_back(sw); t.push_back(st); k.push_back(0); rem -= sw;
+        probe(rem);
+      }
+      // sometimes the probed cell itself is inserted last, predicted just before
+      if (rem > 0 && g.coin(40)) {
+        long long pw = std::min(P, rem); long long pt = g.coin(50) ? b - g.uni(0, 50) * scale : e;
+        w.push_back(pw); t.push_back(pt); k.push_back(1);
+        w.push_back(pw); t.push_back(pt); k.push_back(0);
+      }
+      emit(b, e, w, t, k);
+    }
+    return 0;
+  }
   // run
   vh_install();
   std::string line;
